@@ -168,7 +168,10 @@ FC_MENU = [(1 * u.GHz, True), (-3 * u.kHz, True), (0 * u.Hz, True), (7 / u.s, Tr
            (5.0, False), (None, False), ([1.4] * u.GHz, False)]
 START_MENU = [(None, True), (T_OK, True), ("2020-01-01T00:00:00", True), (Time(59000.25, format="mjd", scale="tai"), True),
               (Time([59000.0, 59001.0], format="mjd"), False), ("garbage", False), (59000.5, False), ([1, 2], False),
-              (Time([59000.0], format="mjd"), False)]
+              (Time([59000.0], format="mjd"), False),
+              (Time(["2021-01-01T00:00:00", "2021-01-01T00:00:01"], format="isot", precision=9), False),
+              (Time("2021-01-01T00:00:00", format="isot", precision=9) + np.arange(3) * u.s, False),
+              (Time("2021-01-01T00:00:00", format="isot", precision=9), True)]
 ALIGN_MENU = [("bottom", True), ("center", True), ("top", True), ("Center", False), ("middle", False), (None, False), (0, False),
               ("", False), (["center"], False), ({"center": 1}, False), (np.array("center"), False)]
 POL_MENU = [("linear", True), ("circular", True), ("Linear", False), ("lin", False), (None, False), (1, False), (["linear"], False),
